@@ -109,6 +109,22 @@ def examine_merge(c, r, out):
             out.append(('C10:phantom', '%s = %s: parameter %s stands for no input parameter' % (c.show(), show_sig(r), name_of(nm))))
             continue
         if k in ('VP', 'VK'):
+            # the combined star parameter: conciled from the inputs' star parameters of that kind
+            # (the annotation all annotated ones agree on, otherwise none); decided when every input
+            # has that star under this very name, so that none of them absorbed anything by it
+            stars = [[q for q in d['params'] if q[1] == k] for d in c.ds]
+            named = [frozenset(q[0] for q in d['params'] if q[1] not in ('VP', 'VK')) for d in c.ds]
+            # (a star that absorbs a parameter the other side lacks is used up and contributes
+            # nothing: decided only when all inputs name the same parameters)
+            if all(len(s) == 1 and s[0][0] == nm for s in stars) and len(set(named)) == 1:
+                anns = [(s[0][3], s[0][4]) for s in stars if s[0][3] is not None]
+                if anns and all(a[0] == anns[0][0] for a in anns):
+                    want = anns[0] if (an, ua) not in anns else (an, ua)
+                else:
+                    want = (None, ('E',))
+                if (an, ua) != want and not (len(anns) >= 3 and len({a[0] for a in anns}) > 1):
+                    out.append(('C10:annotation', '%s = %s: annotation of the star parameter %s is %s, expected %s' % (
+                        c.show(), show_sig(r), name_of(nm), (an, ua), want)))
             continue
         if de is not None and any(q[2] is None for q in cons):
             out.append(('C10:optional', '%s = %s: %s is optional although a contributor is required' % (c.show(), show_sig(r), name_of(nm))))
